@@ -2,6 +2,7 @@
 
 from __future__ import annotations
 
+import re
 from typing import TYPE_CHECKING
 from typing import Callable
 from typing import Dict
@@ -48,6 +49,9 @@ if TYPE_CHECKING:
     from .tokens import TokenStream
 
 # ruff: noqa: D102
+
+# A number with a superfluous leading zero, like `01`, `-01` or `00.5`.
+RE_LEADING_ZERO = re.compile(r"-?0[0-9]")
 
 
 class Parser:
@@ -360,7 +364,7 @@ class Parser:
 
     def parse_integer_literal(self, stream: TokenStream) -> Expression:
         value = stream.current.value
-        if value.startswith("0") and len(value) > 1:
+        if RE_LEADING_ZERO.match(value):
             raise JSONPathSyntaxError("invalid integer literal", token=stream.current)
 
         # Convert to float first to handle scientific notation.
@@ -373,7 +377,7 @@ class Parser:
 
     def parse_float_literal(self, stream: TokenStream) -> Expression:
         value = stream.current.value
-        if value.startswith("0") and len(value.split(".")[0]) > 1:
+        if RE_LEADING_ZERO.match(value):
             raise JSONPathSyntaxError("invalid float literal", token=stream.current)
 
         try:
